@@ -256,6 +256,10 @@ StrictFaults(op, ev) ==
     [] op.a = "DecodeAny" ->
          \* C04: any octets: one of the three codes, never more consumed than given
          When(ev.rc \notin {"OK", "WMORE", "FAIL"}, "bad-rc") \cup When(ev.consumed > ev.size, "consumed-exceeds-size")
+         \* C18: an identifier without a row in the object set is never accepted, and whatever is accepted
+         \* holds an open type value of the type paired with its identifier
+         \cup When(op.style = "ioc-norow" /\ ev.rc = "OK", "unknown-identifier-accepted")
+         \cup When(ev.rc = "OK" /\ Has(ev, "val") /\ ev.wf /\ ~IocConsistent(RawEnv, TypeOf(sc), ev.val), "open-type-not-paired-with-identifier")
     [] op.a = "StartDecode" -> {}
     [] op.a = "DecodeCall" ->
          IF dec.st # "active" THEN {"no-decoding-session"}
